@@ -418,6 +418,65 @@ func renameEvent(tw *traceWriter, m mapUnderTest, f map[string][2]string, flist 
 	tw.emit(ev)
 }
 
+// fromItemsEvent builds a map with MapFromItems (duplicates included) and logs what it holds.
+func fromItemsEvent(tw *traceWriter, items [][2]string) *ordered.Map[string, string] {
+	ev := obj{"op": "fromitems", "items": items}
+	var m *ordered.Map[string, string]
+	p, msg := guarded(func() {
+		ts := make([]ordered.TupleSS, 0, len(items))
+		for _, it := range items {
+			ts = append(ts, ordered.TupleSS{Key: it[0], Value: it[1]})
+		}
+		m = ordered.MapFromItems(ts...)
+		r := [][2]string{}
+		m.Range(func(k, v string) error { r = append(r, [2]string{k, v}); return nil })
+		ev["range"], ev["len"] = r, m.Len()
+	})
+	ev["panic"] = p
+	if p {
+		ev["panicmsg"], ev["range"], ev["len"] = msg, []any{}, 0
+		m = ordered.NewMap[string, string](0)
+	}
+	tw.emit(ev)
+	return m
+}
+
+// deriveEvent: TransformValues, AssertValues, ToMapRecursive on the current map.
+func deriveEvent(tw *traceWriter, m *ordered.Map[string, string]) {
+	ev := obj{"op": "derive", "transformed": []any{}, "asserted": []any{}, "assertok": false, "assertbadok": true, "tomaprec": []any{}, "range": []any{}}
+	p, msg := guarded(func() {
+		t := ordered.TransformValues(m, func(v string) string { return v + "!" })
+		tr := [][2]string{}
+		t.Range(func(k, v string) error { tr = append(tr, [2]string{k, v}); return nil })
+		ev["transformed"] = tr
+		sa := ordered.TransformValues(m, func(v string) any { return v })
+		as, err := ordered.AssertValues[string](sa)
+		ar := [][2]string{}
+		as.Range(func(k, v string) error { ar = append(ar, [2]string{k, v}); return nil })
+		ev["asserted"], ev["assertok"] = ar, err == nil
+		bad := ordered.TransformValues(m, func(v string) any { return v })
+		bad.Set("~~not-a-string", 42)
+		_, berr := ordered.AssertValues[string](bad)
+		ev["assertbadok"] = berr == nil
+		rec, _ := ordered.ToMapRecursive(sa).(map[string]any)
+		tl := [][2]string{}
+		for k, v := range rec {
+			s, _ := v.(string)
+			tl = append(tl, [2]string{k, s})
+		}
+		sort.Slice(tl, func(i, j int) bool { return tl[i][0] < tl[j][0] })
+		ev["tomaprec"] = tl
+		r := [][2]string{}
+		m.Range(func(k, v string) error { r = append(r, [2]string{k, v}); return nil })
+		ev["range"] = r
+	})
+	ev["panic"] = p
+	if p {
+		ev["panicmsg"] = msg
+	}
+	tw.emit(ev)
+}
+
 func parseOps(a any) [][]string {
 	l, _ := a.([]any)
 	out := make([][]string, len(l))
@@ -633,6 +692,16 @@ func c05Random(tw *traceWriter, fl flags, seed int64, sum obj) {
 		m := newMapUT(vt, init)
 		key := func() string { return alphabet[rng.Intn(len(alphabet))] }
 		val := func() string { return fmt.Sprintf("v%d", rng.Intn(5)) }
+		if vt == "ss" && init != "nil" && h%4 == 0 {
+			// start from MapFromItems (with duplicate keys), and exercise the derived-map API
+			items := [][2]string{}
+			for i, n := 0, rng.Intn(2*asz+1); i < n; i++ {
+				items = append(items, [2]string{key(), val()})
+			}
+			fm := fromItemsEvent(tw, items)
+			deriveEvent(tw, fm)
+			m = mapSS{fm}
+		}
 		phase, phaseLeft := 0, 0
 		prevSlots := 0
 		var first []any
@@ -711,6 +780,9 @@ func c05Random(tw *traceWriter, fl flags, seed int64, sum obj) {
 					flist = append(flist, []string{k, to[0], to[1]})
 				}
 				renameEvent(tw, m, f, flist)
+			}
+			if ss, ok := m.(mapSS); ok && ss.m != nil && rng.Intn(700) == 0 {
+				deriveEvent(tw, ss.m)
 			}
 			if rng.Intn(500) == 0 {
 				obsKeys := alphabet
